@@ -1,5 +1,6 @@
 import SkgVerif.Lemmas.PermInv
 import SkgVerif.Gen.Source
+import SkgVerif.Props.Transcribed.C11
 /-!
 # C11 — how distances are supplied never changes the variogram
 
